@@ -284,6 +284,72 @@ def part(run, tier, pid, props, per):
                                            'cases': len(items), 'judged': judged, 'nontrivial_cases': nontrivial, 'rejected': rejected,
                                            'directed': sum(1 for c, _, _, _ in items if c['gc'].G.is_directed()),
                                            'seeded': sum(1 for _, h, _, _ in items if 'seed' in h), 'stats': stats, 'samples': samples[:2]}
+    if pid == 'C04':
+        complex_part(run, EoN, sim, tier, per)
+
+
+# ------------------------------------------------------------------ Gillespie_complex_contagion (C04) ----
+CENTRY = 'Gillespie_complex_contagion'
+
+
+def complex_line(CL, case, rows):
+    """the arrays of Gillespie_complex_contagion against wf_gtrajb with every status-to-status move allowed
+    (Props/C04gen.v, C04gen_complex_rows_well_formed): the moves are given to the driver as spec edges a -> b"""
+    gc = case['gc']; ns = case['ns']
+    t = ['GENX', gc.tokens(), str(ns * ns)]
+    for a in range(ns):
+        for b in range(ns): t += [str(a), str(b), '1 1']
+    t.append('0')
+    t += [str(s) for s in case['ic']]
+    t += [str(len(case['rs']))] + [str(x) for x in case['rs']]
+    t += [C.qtok(case['tmin']), R.opt_q(case['tmax']), '1' if set(range(ns)) <= set(case['rs']) else '0']
+    t += ['1', str(len(rows))]
+    for tm, cs in rows: t += [C.qtok(F(tm))] + [str(c) for c in cs]
+    t += ['0', '0', '0']
+    return ' '.join(t)
+
+
+def complex_part(run, EoN, sim, tier, per):
+    try:
+        from . import complex_lib as CL
+    except ImportError:
+        return
+    ok, log = C.build_driver(CL.COMP)
+    if not ok:
+        return
+    rng = run.rng
+    n = 300 if tier == 'quick' else 4000
+    cases = []
+    while len(cases) < n:
+        c = CL.gen_case(rng, malformed=False)
+        if c.get('covers') and all(s is not None for s in c['ic']): cases.append(c)
+    outs = C.run_model([CL.model_line(c, 'W ' + R.ent_tokens(rng)) for c in cases], CL.COMP)
+    lines = []; idx = []
+    crashed = 0
+    for c, o in zip(cases, outs):
+        m = R.parse_model_line(o)
+        if m['status'] == 'DRIVERFAIL': continue
+        impl = CL.run_impl(EoN, sim, c, m['draws'], full=False)
+        if impl['status'] == 'EXC':
+            crashed += 1
+            run.violation('C04/%s/returns' % CENTRY, 'on a well-formed input (influence set covering, plain mode) the model returns for every draw script (C15_every_run); the implementation raised %s' % impl.get('err'),
+                          dict(CL.case_json(c, m['draws']), genx=True, checker_genx='returns', entry='generic:' + CENTRY))
+            continue
+        rows = impl.get('rows')
+        if impl['status'] != 'OK' or not isinstance(rows, list) or not all(len(cs) == len(c['rs']) for _, cs in rows): continue
+        lines.append(complex_line(CL, c, rows)); idx.append((c, m['draws'], rows))
+    judged = rejected = nontrivial = 0
+    for (c, draws, rows), o in zip(idx, C.run_model(lines, COMP)):
+        v = parse_verdict(o)
+        if 'fail' in v:
+            run.violation('C04/genx/driver', 'checker driver failed: %r' % (v['fail'],), dict(CL.case_json(c, draws), genx=True), no_input=True); continue
+        judged += 1; nontrivial += len(rows) >= 3
+        if v.get('traj') is False:
+            rejected += 1
+            run.violation('C04/%s/wf_gtrajb' % CENTRY, 'the extracted checker wf_gtrajb (proved sound and accepted on every model run, Props/C04gen.v C04gen_complex_rows_well_formed) rejects the implementation\'s arrays: %r' % (rows[:8],),
+                          dict(CL.case_json(c, draws), genx=True, checker_genx='wf_gtrajb', entry='generic:' + CENTRY))
+    per['%s/extracted-checker' % CENTRY] = {'proved': True, 'props': 'Props/C04gen.v', 'checkers': ['wf_gtrajb'], 'cases': len(cases), 'judged': judged,
+                                            'nontrivial_cases': nontrivial, 'rejected': rejected, 'impl_failed': crashed}
 
 
 # ------------------------------------------------------------------ stand-alone ----
@@ -310,6 +376,7 @@ def run(run, tier):
     for pid in ('C04', 'C09', 'C10'):
         j, n, r, s = apply_checkers(run, pid, items, stats)
         per[pid] = {'judged': j, 'rejected': r}; tot += j; nt = max(nt, n); samples = samples or s
+    complex_part(run, EoN, sim, tier, per)
     C.proof_coverage(run, props, tot, nt,
                      'random specifications (families %s) on random graphs of 1-6 nodes, directed and undirected, weight labels / rate functions, string / tuple / unorderable statuses, '
                      'return_statuses full / subset / repeated / unknown; the implementation run in both return modes on the same draws (scripted draws chosen by the extracted model; seeded runs of the real '
@@ -320,6 +387,17 @@ def run(run, tier):
 def replay(rp):
     EoN = C.import_eon(); import EoN.simulation as sim
     j = rp['replay']
+    if j.get('entry') == 'generic:' + CENTRY:
+        from . import complex_lib as CL
+        case = CL.case_from_json(j); draws = [F(x) for x in j.get('draws', [])]
+        C.build_driver(COMP)
+        impl = CL.run_impl(EoN, sim, case, draws, full=False)
+        print('implementation:', impl['status'], impl.get('err', ''), impl.get('rows'))
+        if impl['status'] == 'EXC': return 1
+        if impl['status'] != 'OK' or not isinstance(impl.get('rows'), list): return 0
+        v = parse_verdict(C.run_model([complex_line(CL, case, impl['rows'])], COMP)[0])
+        print('extracted wf_gtrajb on the arrays:', v)
+        return 1 if v.get('traj') is False else 0
     case = L.case_from_json(j); case['entry'] = ENTRY
     how = j.get('how', {})
     C.build_driver(COMP)
